@@ -69,6 +69,8 @@ Defs == [
   \* an Optional field whose default is not None (an explicit None must stay None)
   D7  |-> [flavour |-> "dataclass",    module |-> "m1", py |-> "D7",  fields |-> << <<"owner", P("str"), FALSE>>, <<"limit", Opt(P("int")), TRUE, "100">> >>],
   N5  |-> [flavour |-> "namedtuple",   module |-> "m1", py |-> "N5",  fields |-> << <<"a", P("int"), FALSE>>, <<"b", Opt(P("int")), TRUE, "-1">> >>],
+  \* a slotted dataclass without any field (no __dict__ to fall back on)
+  E0  |-> [flavour |-> "dc_slots",     module |-> "m1", py |-> "E0",  fields |-> << >>],
   \* a second recursive class with the Python name of R1, in another module, with other field types
   R1b |-> [flavour |-> "dataclass",    module |-> "m2", py |-> "R1",  fields |-> << <<"v", P("str"), FALSE>>, <<"nxt", Opt(Cls("R1b")), TRUE>> >>]
 ]
